@@ -284,3 +284,151 @@ Proof.
     inversion Hg as [|? ? (_ & _ & _ & _ & Hft & _) _]; subst. exact Hft.
   - lia.
 Qed.
+
+(* ------------------------------------------------------------------ the extended header format (FORMAT TYPE 1) *)
+(* from the `for` over the groups to the end of the builder, whatever was appended to the four length bytes before *)
+Lemma rtpgm_tail (all : list tg_item) (pre : bytes) (dd : list (string * pv)) f (ρ0 : env) :
+  Forall tgi_ok all ->
+  lookup "target_port_group_descriptors" dd = Some (PList (map tgi_dict all)) ->
+  lookup "result" ρ0 = Some (PBytes (zeros 4 ++ pre)%list) -> lookup "data" ρ0 = Some (PDict dd) ->
+  exec_block all_tables (call_with py_program (run all_tables py_program f)) (run all_tables py_program f) (skipn 2 (fn_body PF_rtpgm)) ρ0 =
+  ORet (PBytes (int_to_ba (N.of_nat (length (pre ++ concat (map tgi_bytes all))%list)) 4 ++ pre ++ concat (map tgi_bytes all))%list).
+Proof.
+  intros Hall Hlk Hres0 Hdata0.
+  match goal with |- context [skipn 2 ?l] => let l' := eval cbv [skipn fn_body PF_rtpgm] in (skipn 2 l) in change (skipn 2 l) with l' end.
+  rewrite exec_block_cons, exec_for. cbn [eval]. rewrite Hdata0. cbn [index_eval]. rewrite Hlk. cbn [iter_items].
+  match goal with |- context [for_iter _ ?c ?a "_tpgd" ?body _ ?r0] =>
+    destruct (for_consumes all_tables c a "_tpgd" body (rtpgm_inv all (zeros 4 ++ pre)%list)
+                (fun d ds ρ H => rtpgm_iter all _ c a d ds ρ Hall H)) with (ds := map tgi_dict all) (ρ := r0) as (ρ' & Hrun & Hinv) end.
+  - exists [], all. split; [reflexivity|]. split; [reflexivity|]. rewrite Hres0. change (concat (map tgi_bytes [])) with (@nil N). now rewrite app_nil_r.
+  - cbn [rtpgm_outer_body fn_body nth PF_rtpgm] in Hrun. rewrite Hrun.
+    destruct Hinv as (done & rest & Hsplit & Hds & Hres). symmetry in Hds. apply map_eq_nil in Hds. subst rest. rewrite app_nil_r in Hsplit. subst done.
+    rewrite <- app_assoc in Hres.
+    step. rewrite Hres. cbn [len_eval bin_eval as_int]. unfold with_var. rewrite Hres.
+    set (body := (pre ++ concat (map tgi_bytes all))%list).
+    assert (Hl : length (zeros 4 ++ body)%list = 4 + length body) by (rewrite app_length, zeros_length; reflexivity).
+    rewrite Hl.
+    assert (Hi : int_to_ba_z (Z.of_nat (4 + length body) - 4) 4 = int_to_ba (N.of_nat (length body)) 4).
+    { unfold int_to_ba_z. destruct (Z.leb_spec 0 (Z.of_nat (4 + length body) - 4)); [|lia].
+      change (Z.to_nat (Z.min (Z.max 4 0) 4096)) with 4. f_equal. lia. }
+    cbn [as_int]. rewrite Hi.
+    assert (Hs : forall x : bytes, length x = 4 -> store_slice (PBytes (zeros 4 ++ body)%list) None (Some (PInt 4)) (PBytes x)
+                 = Ok (PBytes (x ++ body)%list)).
+    { intros x Hx. unfold store_slice. cbn [opt_int as_int]. unfold clip. rewrite Hl. change (Z.ltb 4 0) with false. cbn iota.
+      replace (Z.to_nat (Z.min 4 (Z.of_nat (4 + length body)))) with 4 by lia. change (Nat.max 0 4) with 4. rewrite firstn_O.
+      rewrite skipn_app, skipn_all2 by (rewrite zeros_length; lia). rewrite zeros_length, Nat.sub_diag. reflexivity. }
+    rewrite Hs by apply int_to_ba_length.
+    step. lk. reflexivity.
+Qed.
+
+Lemma ext_wf4 : wf_layout 4 T_ext = true.
+Proof. vm_compute. reflexivity. Qed.
+
+(* the builder with FORMAT TYPE 1: RETURN DATA LENGTH, the four bytes encode_dict makes of the two header fields, the groups *)
+Theorem rtpg_build_exact_extended : forall (all : list tg_item) (itt : N) (ext : bytes) f, Forall tgi_ok all -> 1 <= f ->
+  encode_dict [("format_type", VI 1); ("implicit_transition_time", VI itt)] T_ext (zeros 4) = Ok ext ->
+  call_fun all_tables py_program f RTPGM
+    [PDict [("format_type", PInt 1); ("implicit_transition_time", PInt (Z.of_N itt)); ("target_port_group_descriptors", PList (map tgi_dict all))]]
+  = Ok (PBytes (int_to_ba (N.of_nat (length (ext ++ concat (map tgi_bytes all))%list)) 4 ++ ext ++ concat (map tgi_bytes all))%list).
+Proof.
+  intros all itt ext f Hall Hf Hext. destruct f as [|f]; [lia|].
+  unfold call_fun, call_with. rewrite rtpgm_lookup. cbn [fn_params bind_params PF_rtpgm].
+  rewrite run_S, exec_if. cbn [eval truthy]. cbn [fn_body PF_rtpgm].
+  step. cbn [bytearray_eval as_int]. change (Z.ltb 4 0) with false. change (Z.ltb 1048576 4) with false. cbn iota. change (Z.to_nat 4) with 4.
+  rewrite exec_block_cons, exec_if. cbn [eval]. lk. cbn [lookup String.eqb Ascii.eqb Bool.eqb in_eval negb truthy index_eval cmp_eval py_eq as_int].
+  change (Z.eqb 1 1) with true. cbn [truthy].
+  step. cbn [bytearray_eval as_int]. change (Z.ltb 4 0) with false. change (Z.ltb 1048576 4) with false. cbn iota. change (Z.to_nat 4) with 4.
+  step. cbn [lookup String.eqb Ascii.eqb Bool.eqb]. rewrite (proj2 rtpg_tables). unfold with_var. lk.
+  assert (Henc : encode_pv [("format_type", PInt 1); ("implicit_transition_time", PInt (Z.of_N itt)); ("target_port_group_descriptors", PList (map tgi_dict all))] T_ext (zeros 4) = Ok ext).
+  { change [("format_type", PInt 1); ("implicit_transition_time", PInt (Z.of_N itt)); ("target_port_group_descriptors", PList (map tgi_dict all))]
+      with (dict_of_decoded [("format_type", VI 1); ("implicit_transition_time", VI itt)] ++ [("target_port_group_descriptors", PList (map tgi_dict all))])%list.
+    rewrite encode_pv_app_unknown by (vm_compute; reflexivity). rewrite encode_pv_of_decoded. exact Hext. }
+  rewrite Henc.
+  step. cbn [bin_eval as_int]. rewrite exec_block_nil.
+  match goal with |- context [exec_block _ _ _ ?blk ?ρ0] =>
+    change blk with (skipn 2 (fn_body PF_rtpgm));
+    rewrite (rtpgm_tail all ext [("format_type", PInt 1); ("implicit_transition_time", PInt (Z.of_N itt)); ("target_port_group_descriptors", PList (map tgi_dict all))] f ρ0 Hall) end;
+    [reflexivity|reflexivity|lk; reflexivity|lk; reflexivity].
+Qed.
+
+Definition tg_item_good (g : tg_item) : Prop :=
+  tgi_ok g /\ length (tgi_enc g) = 8 /\ decode_bits (tgi_enc g) T_tpgd = Ok (tgi_fields g) /\
+  lookup "target_port_count" (dict_of_decoded (tgi_fields g)) = Some (PInt (Z.of_nat (length (tgi_ports g)))) /\
+  lookup "format_type" (dict_of_decoded (decode_total (tgi_enc g) T_ext)) = Some (PInt 0) /\
+  Forall (fun id => (id < 65536)%N) (tgi_ports g).
+
+Lemma tg_groups_encode (groups : list (list (string * value) * list N)) : Forall tg_group_ok groups ->
+  exists gs : list tg_item, map (fun g => (tgi_fields g, tgi_ports g)) gs = groups /\ Forall tg_item_good gs.
+Proof.
+  intros Hall. induction Hall as [|[dv ids] groups (Hv & Hk & Hc & Hids) _ (gs & Hm & Hg)]; [exists []; split; [reflexivity|constructor]|].
+  cbn [fst snd] in *.
+  destruct (valid_dict_parts _ _ _ Hv) as (Hnd & Hvals).
+  destruct (encode_dict_bits 8 T_tpgd dv (zeros 8) (zeros_length 8) (bytes_ok_zeros 8) Hvals) as (enc & He & Hl & _).
+  exists (mkTgi dv ids enc :: gs). split; [cbn [map tgi_fields tgi_ports]; now rewrite Hm|].
+  constructor; [|exact Hg]. unfold tg_item_good, tgi_ok. cbn [tgi_fields tgi_ports tgi_enc].
+  pose proof (lookup_dict_of_decoded dv _ _ Hnd Hc) as Hlc. cbn [pv_of_value] in Hlc. rewrite nat_N_Z in Hlc.
+  repeat split; try assumption.
+  - apply lookup_not_in. rewrite dict_of_decoded_names, Hk. vm_compute. reflexivity.
+  - exact (decode_bits_of_encoded 8 T_tpgd dv enc tpgd_wf8 Hv Hk He).
+  - exact (tg_enc_reserved dv enc Hv Hk He).
+Qed.
+
+(* build, then parse, with the extended header: FORMAT TYPE 1 and the IMPLICIT TRANSITION TIME come back, and the groups as before *)
+Theorem rtpg_parse_inverts_build_extended : forall (groups : list (list (string * value) * list N)) (itt : N) f,
+  Forall tg_group_ok groups -> (itt < 256)%N ->
+  (Z.of_nat (4 + fold_right (fun g acc => (8 + 4 * length (snd g) + acc)%nat) 0%nat groups) < 4294967296)%Z ->
+  2 * fold_right (fun g acc => (8 + 4 * length (snd g) + acc)%nat) 0%nat groups + 4 <= f ->
+  exists built,
+    call_fun all_tables py_program f RTPGM
+      [PDict [("format_type", PInt 1); ("implicit_transition_time", PInt (Z.of_N itt)); ("target_port_group_descriptors", PList (map tg_group_dict groups))]] = Ok (PBytes built) /\
+    call_fun all_tables py_program f RTPG [PBytes built] =
+      Ok (PDict [("format_type", PInt 1); ("implicit_transition_time", PInt (Z.of_N itt)); ("target_port_group_descriptors", PList (map tg_group_dict groups))]).
+Proof.
+  intros groups itt f Hall Hitt Hsmall Hf.
+  destruct (tg_groups_encode groups Hall) as (gs & Hm & Hg).
+  (* the four bytes of the extended header *)
+  set (hd := [("format_type", VI 1); ("implicit_transition_time", VI itt)]).
+  assert (Hvd : valid_dict 4 T_ext hd = true).
+  { unfold valid_dict. apply andb_true_intro. split; [reflexivity|]. cbn [forallb hd]. unfold val_okb. cbn [fst snd].
+    change (lookup "format_type" T_ext) with (Some (Mask 112 0)). change (lookup "implicit_transition_time" T_ext) with (Some (Mask 255 1)).
+    change (geom_of 4 (Mask 112 0)) with (geom_of 4 (Mask 112 0)). vm_compute geom_of. cbn [vint g_w].
+    change (1 <? 2 ^ 3)%N with true. cbn [andb]. rewrite andb_true_r. apply N.ltb_lt. change (2 ^ 8)%N with 256%N. exact Hitt. }
+  destruct (valid_dict_parts _ _ _ Hvd) as (_ & Hvals).
+  destruct (encode_dict_bits 4 T_ext hd (zeros 4) (zeros_length 4) (bytes_ok_zeros 4) Hvals) as (ext & Hext & Hlext & _).
+  pose proof (decode_bits_of_encoded 4 T_ext hd ext ext_wf4 Hvd eq_refl Hext) as Hdec.
+  assert (Hdicts : map tg_group_dict groups = map tgi_dict gs) by (rewrite <- Hm, map_map; reflexivity).
+  assert (Hok : Forall tgi_ok gs) by (eapply Forall_impl; [|exact Hg]; intros g H; apply H).
+  pose proof (rtpg_build_exact_extended gs itt ext f Hok ltac:(lia) Hext) as Hbuild.
+  rewrite Hdicts. eexists. split; [exact Hbuild|].
+  set (tpgs := map (fun g => mkTpg (tgi_enc g) (map tgi_port_bytes (tgi_ports g))) gs).
+  assert (Hbytes : map tgi_bytes gs = map tpg_bytes tpgs) by (unfold tpgs; rewrite map_map; reflexivity).
+  assert (Hpd : Forall tpg_ok tpgs).
+  { unfold tpgs. apply Forall_map. eapply Forall_impl; [|exact Hg]. intros g (_ & Hl & Hd & Hc & _ & _).
+    unfold tpg_ok, tpg_fields. cbn [g_hdr g_ports]. split; [exact Hl|]. split.
+    - apply Forall_map. apply Forall_forall. intros id _. unfold tgi_port_bytes. rewrite app_length, zeros_length, int_to_ba_length. reflexivity.
+    - unfold decode_total. rewrite Hd, map_length. exact Hc. }
+  assert (Hlen : length (concat (map tpg_bytes tpgs)) = fold_right (fun g acc => (8 + 4 * length (snd g) + acc)%nat) 0%nat groups).
+  { rewrite <- Hm. unfold tpgs. clear -Hg. induction Hg as [|g gs (_ & Hl & _) _ IH]; [reflexivity|].
+    cbn [map fold_right snd]. change (concat (?x :: ?l)) with (x ++ concat l)%list. rewrite app_length, IH. unfold tpg_bytes. cbn [g_hdr g_ports].
+    rewrite app_length, Hl. f_equal. f_equal.
+    rewrite (concat_len_const _ 4), map_length; [reflexivity|]. apply Forall_map, Forall_forall. intros id _.
+    unfold tgi_port_bytes. rewrite app_length, zeros_length, int_to_ba_length. reflexivity. }
+  rewrite Hbytes.
+  pose proof (rtpg_exact_extended_header (int_to_ba (N.of_nat (length (ext ++ concat (map tpg_bytes tpgs))%list)) 4) ext tpgs [] (PInt (Z.of_N itt)) f) as Hex.
+  rewrite app_nil_r in Hex. rewrite Hex.
+  - do 7 f_equal. unfold tpgs. rewrite map_map. apply map_ext_in. intros g Hin.
+    rewrite Forall_forall in Hg. destruct (Hg _ Hin) as (_ & _ & Hd & _ & _ & Hids).
+    unfold tpg_dict, tgi_dict, tpg_fields. cbn [g_hdr g_ports]. unfold decode_total. rewrite Hd. do 5 f_equal.
+    rewrite map_map. apply map_ext_in. intros id Hid. rewrite Forall_forall in Hids. specialize (Hids _ Hid).
+    unfold port_dict, tgi_port_dict, tgi_port_bytes. do 5 f_equal.
+    rewrite skipn_app, skipn_all2 by (rewrite zeros_length; lia). rewrite zeros_length. change (2 - 2) with 0. rewrite skipn_O.
+    change (@nil N ++ int_to_ba id 2)%list with (int_to_ba id 2).
+    rewrite ba_to_int_to_ba. apply N.mod_small. exact Hids.
+  - apply int_to_ba_length.
+  - exact Hlext.
+  - exact Hpd.
+  - rewrite ba_to_int_to_ba, app_length, Hlext. rewrite N.mod_small by (change (256 ^ N.of_nat 4)%N with 4294967296%N; lia). lia.
+  - unfold decode_total. rewrite Hdec. reflexivity.
+  - unfold decode_total. rewrite Hdec. reflexivity.
+  - lia.
+Qed.
